@@ -267,6 +267,17 @@ theorem specField_trusted_plain (keep : List Bytes → Bytes → Bytes) (fresh :
   unfold fieldBefore
   cases vals <;> simp [specField, hk]
 
+/-- whatever the `Connection` header named and whatever the peer sent: a field that no earlier handler
+    pre-set to nil is sent with exactly one value -/
+theorem specField_sent (trusted : Bool) (keep : List Bytes → Bytes → Bytes) (fresh : Bytes) (d : Bool)
+    (vals : List Bytes) : Sent (specField trusted keep fresh (fieldBefore false d vals)) := by
+  unfold fieldBefore Sent
+  cases d <;> cases vals <;> simp [specField]
+
+theorem dropNil_sent {x : Option (Option (List Bytes))} (h : Sent x) : Sent (dropNil x) := by
+  obtain ⟨v, rfl⟩ := h
+  exact ⟨v, rfl⟩
+
 /-! ### join-then-split -/
 
 theorem splitAux_append (c : UInt8) (b : Bytes) : ∀ (a acc : Bytes),
